@@ -274,12 +274,73 @@ def benchmark_classes(repo):
     for modname in ("benchmark_functions", "benchmark_robust"):
         m = repo.module(modname)
         for c in m.classes.values():
-            if c.name == "BenchmarkFunction" or "evaluate" not in c.methods or "set" not in c.methods:
+            if c.name == "BenchmarkFunction":
                 continue
             if repo.cls("BenchmarkFunction", "benchmark_functions") not in repo.mro(c):
                 continue
+            if "set" not in c.methods and "evaluate" not in c.methods:
+                continue
+            # a concrete benchmark may inherit evaluate() (or set()) from an intermediate base of the benchmark modules
+            full = {}
+            for k in reversed(repo.mro(c)):
+                if k.name != "BenchmarkFunction" and k.module.name in ("benchmark_functions", "benchmark_robust"):
+                    full.update(k.methods)
+            if "evaluate" not in full or "set" not in full or "set" not in c.methods:
+                continue
+            c.methods = full
             out.append((modname, c))
     return out
+
+
+def r6_instance_state(ctx, repo, classes):
+    """what one benchmark object computes must not depend on how many other objects exist: a mutable attribute that
+    lives on the CLASS (class body, or `cls.x = []` in __init_subclass__ / a classmethod) and is filled through `self`
+    in set() / __init__ / their helpers accumulates over all instances"""
+    MUT = ("append", "extend", "insert", "add", "update", "setdefault", "__setitem__")
+    for modname, cls in classes:
+        mod = cls.module
+        shared = {}
+        for k in repo.mro(cls):
+            for a, v in k.class_attrs.items():
+                if isinstance(v, (ast.List, ast.Dict, ast.Set)) or (isinstance(v, ast.Call) and access_path(v.func) in ("list", "dict", "set", "defaultdict", "collections.defaultdict")):
+                    shared.setdefault(a, (k, v))
+            for mn, fn in k.methods.items():
+                ps = func_params(fn)
+                is_cls = mn == "__init_subclass__" or any(isinstance(d, ast.Name) and d.id == "classmethod" for d in fn.decorator_list)
+                if is_cls and ps:
+                    for s_ in stmts_of(fn):
+                        if isinstance(s_, ast.Assign):
+                            for t in s_.targets:
+                                if isinstance(t, ast.Attribute) and isinstance(t.value, ast.Name) and t.value.id == ps[0] \
+                                        and (isinstance(s_.value, (ast.List, ast.Dict, ast.Set)) or (isinstance(s_.value, ast.Call) and access_path(s_.value.func) in ("list", "dict", "set"))):
+                                    shared.setdefault(t.attr, (k, s_))
+        if not shared:
+            continue
+        own = set()        # attributes the instance rebinds for itself
+        muts = []
+        for mn, fn in cls.methods.items():
+            ps = func_params(fn)
+            if not ps or any(isinstance(d, ast.Name) and d.id in ("classmethod", "staticmethod") for d in fn.decorator_list) or mn == "__init_subclass__":
+                continue
+            for s_ in stmts_of(fn):
+                if isinstance(s_, ast.Assign):
+                    for t in s_.targets:
+                        if isinstance(t, ast.Attribute) and isinstance(t.value, ast.Name) and t.value.id == ps[0]:
+                            own.add(t.attr)
+                        if isinstance(t, ast.Subscript) and isinstance(t.value, ast.Attribute) and isinstance(t.value.value, ast.Name) and t.value.value.id == ps[0]:
+                            muts.append((t.value.attr, fn, s_))
+                for c_ in calls_in(s_) if not isinstance(s_, (ast.For, ast.While, ast.If, ast.Try, ast.With)) else []:
+                    if isinstance(c_.func, ast.Attribute) and c_.func.attr in MUT and isinstance(c_.func.value, ast.Attribute) \
+                            and isinstance(c_.func.value.value, ast.Name) and c_.func.value.value.id == ps[0]:
+                        muts.append((c_.func.value.attr, fn, s_))
+        for a, fn, s_ in muts:
+            if a in shared and a not in own:
+                k, v = shared[a]
+                ctx.violated("R6", "%s.%s" % (cls.name, fn.name), where(mod, s_),
+                             "self.%s is a mutable attribute of the class %s (%s) and is filled through the instance (%s): every further %s object adds to the same "
+                             "object, so the function value depends on how many instances were created" % (a, k.name, text(v).strip()[:50], text(s_).strip()[:60], cls.name),
+                             key="shared-class-state:%s" % a)
+                break
 
 
 def run(ctx):
@@ -295,6 +356,8 @@ def run(ctx):
     ctx.count("benchmark_classes", len(classes))
     if len(classes) < 20:
         raise AnalysisError("expected at least 20 single-objective benchmark classes, found %d" % len(classes))
+    ctx.rule("R6", "no benchmark keeps per-instance configuration in mutable class-level state")
+    r6_instance_state(ctx, repo, classes)
     tasks = []
     for modname, cls in classes:
         mod = cls.module
